@@ -35,6 +35,9 @@ pub enum FileState {
     Plain,
     EncryptedKey1,
     EncryptedKeyringA,
+    /// what an interrupted first open with the keyring constructor leaves behind: the
+    /// pre-created, still empty file and the key already stored in the keyring
+    EmptyWithKeyringEntryA,
 }
 
 #[derive(Clone, Debug, PartialEq, Eq, Hash, Serialize, Deserialize)]
@@ -337,6 +340,13 @@ fn matrix_inner(start: FileState, attempts: &[Ctor], nested: u8, shape: u8, rep:
             std::fs::write(&path, b"").map_err(|e| Failure::new("setup-failed", e.to_string()))?;
             state = St::Empty;
         }
+        FileState::EmptyWithKeyringEntryA => {
+            std::fs::create_dir_all(&parent).map_err(|e| Failure::new("setup-failed", e.to_string()))?;
+            std::fs::write(&path, b"").map_err(|e| Failure::new("setup-failed", e.to_string()))?;
+            mdk_sqlite_storage::keyring::get_or_create_db_key(KEYRING_SERVICE, &id_a).map_err(|e| Failure::new("setup-failed", e.to_string()))?;
+            state = St::Empty;
+            rep.classes.push("start:empty-file-with-keyring-entry".into());
+        }
         FileState::Plain => {
             let st = MdkSqliteStorage::new_unencrypted(&path).map_err(|e| Failure::new("setup-failed", e.to_string()))?;
             populate(&st);
@@ -589,7 +599,7 @@ pub fn main(args: &Args) -> i32 {
         exhaustive: false,
     };
     let ctor = prop::sample::select(vec![Ctor::KeyringA, Ctor::KeyringB, Ctor::Key1, Ctor::Key2, Ctor::Unencrypted]);
-    let fstate = prop::sample::select(vec![FileState::Missing, FileState::Empty, FileState::Plain, FileState::EncryptedKey1, FileState::EncryptedKeyringA]);
+    let fstate = prop::sample::select(vec![FileState::Missing, FileState::Empty, FileState::Plain, FileState::EncryptedKey1, FileState::EncryptedKeyringA, FileState::EmptyWithKeyringEntryA]);
     drive(
         args,
         spec,
